@@ -597,7 +597,7 @@ Definition become_leader (r : raft) : Res raft :=
   r1 <- reset r (r_term r) ;;
   let r2 := r1 <| r_leader_id := r_id r1 |> <| r_state := Leader |> in
   let li := last_index (r_log r2) in
-  if negb (li =? persisted (r_log r2)) then Panic site_leader_persisted else
+  (* no assertion li = persisted any more (fix 19c179c): a single voter may lead with an unpersisted tail *)
   let r3 := r2 <| r_uncommitted_size := 0 |> <| r_last_log_tail_index := li |> in
   match get_pr r3 (r_id r3) with
   | None => Panic site_self_progress
@@ -678,10 +678,13 @@ Definition has_unapplied_conf_changes (r : raft) (lo hi : N) : Res bool :=
 (* Raft::hup *)
 Definition hup (r : raft) (transfer_leader : bool) : Res raft :=
   if is_leader r then Ok r else
-  let low := match u_maybe_first_index (unst (r_log r)) with
-             | Some i => i
-             | None => applied (r_log r) + 1
-             end in
+  (* only a voter of its own configuration campaigns (fix 8deb47c) *)
+  if negb (r_promotable r) then Ok r else
+  (* below the first index everything is covered by the snapshot (fix a8252b4): the scan starts there *)
+  low <- match u_maybe_first_index (unst (r_log r)) with
+         | Some i => Ok i
+         | None => fi <- first_index (r_log r) ;; Ok (N.max (applied (r_log r) + 1) fi)
+         end ;;
   let high := committed (r_log r) + 1 in
   b <- has_unapplied_conf_changes r low high ;;
   if b then Ok r else
@@ -1021,8 +1024,9 @@ Definition step_leader (r : raft) (m : msg) : Res (raft * N) :=
   else if t =? MsgReadIndex then
     c <- commit_to_current_term r ;;
     if negb c then Ok (r, E_OK) else
+    (* the lone voter answers at once only if it is this node (fix 6a9ae91) *)
     let singleton := match incoming (conf_of r), outgoing (conf_of r) with
-                     | [_], [] => true | _, _ => false end in
+                     | [_], [] => r_promotable r | _, _ => false end in
     let answer_now :=
       x <- handle_ready_read_index r m (committed (r_log r)) ;;
       let '(r1, om) := x in
@@ -1307,3 +1311,73 @@ Definition assign_commit_groups (r : raft) (ids : list (N * N)) : Res raft :=
   if is_leader r && t_group_commit (r_prs r) then
     x <- maybe_commit r ;; if snd x then bcast_append (fst x) else Ok (fst x)
   else Ok r.
+
+(* ------------------------------------------------------------------ *)
+(* Config and Raft::new *)
+Record config := mkCfg {
+  c_id : N;
+  c_election_tick : N;
+  c_heartbeat_tick : N;
+  c_applied : N;
+  c_max_size_per_msg : N;
+  c_max_inflight_msgs : nat;
+  c_check_quorum : bool;
+  c_pre_vote : bool;
+  c_min_election_tick : N;
+  c_max_election_tick : N;
+  c_read_only_option : N;          (* 0 Safe, 1 LeaseBased *)
+  c_skip_bcast_commit : bool;
+  c_batch_append : bool;
+  c_priority : Z;
+  c_max_uncommitted_size : N;
+  c_max_committed_size_per_ready : N;
+  c_max_apply_unpersisted_log_limit : N;
+  c_disable_proposal_forwarding : bool
+}.
+
+Definition E_CONFIG_INVALID : N := 6.
+
+Definition cfg_min_election_tick (c : config) : N :=
+  if c_min_election_tick c =? 0 then c_election_tick c else c_min_election_tick c.
+Definition cfg_max_election_tick (c : config) : N :=
+  if c_max_election_tick c =? 0 then 2 * c_election_tick c else c_max_election_tick c.
+
+(* Config::validate: true = Ok *)
+Definition cfg_validate (c : config) : bool :=
+  negb (c_id c =? INVALID_ID)
+  && negb (c_heartbeat_tick c =? 0)
+  && (c_heartbeat_tick c <? c_election_tick c)
+  && (c_election_tick c <=? cfg_min_election_tick c)
+  && (cfg_min_election_tick c <? cfg_max_election_tick c)
+  && negb (Nat.eqb (c_max_inflight_msgs c) 0)
+  && negb ((c_read_only_option c =? 1) && negb (c_check_quorum c))
+  && (c_max_size_per_msg c <=? c_max_uncommitted_size c).
+
+(* Raft::new over a MemStorage model [st] ([snap_app]: see r_snap_app).
+   Result: Panic | Ok (inl error code) | Ok (inr raft). *)
+Definition raft_new (c : config) (st : MemStorage.mem) (snap_app : option N) (draws : list N)
+  : Res (N + raft) :=
+  if negb (cfg_validate c) then Ok (inl E_CONFIG_INVALID) else
+  let hs0 := MemStorage.hs st in
+  let cs0 := MemStorage.cs st in
+  l <- log_new st (c_max_apply_unpersisted_log_limit c) ;;
+  let r0 := mkRaft 0 0 (c_id c) [] l (c_max_inflight_msgs c) (c_max_size_per_msg c) INVALID_INDEX
+                   Follower false 0 None 0 (ro_new (c_read_only_option c)) 0 0
+                   (c_check_quorum c) (c_pre_vote c) (c_skip_bcast_commit c) (c_batch_append c)
+                   (c_disable_proposal_forwarding c) (c_heartbeat_tick c) (c_election_tick c) 0
+                   (cfg_min_election_tick c) (cfg_max_election_tick c) (c_priority c)
+                   (c_max_uncommitted_size c) 0 0 (c_max_committed_size_per_ready c)
+                   (mkTr [] empty_conf [] (c_max_inflight_msgs c) false) [] draws snap_app in
+  match ConfChange.restore empty_tracker cs0 with
+  | RErr _ => Ok (inl E_CONF_CHANGE)
+  | ROk (c', ids') =>
+      let r1 := set_conf_prs r0 c' (fresh_progress ids' (last_index l) (c_max_inflight_msgs c)) in
+      x <- post_conf_change r1 ;;
+      let '(r2, new_cs) := x in
+      if negb (conf_state_eq new_cs cs0) then Panic site_restore_mismatch else
+      r3 <- (if hs_eqb hs0 hs_default then Ok r2 else load_state r2 hs0) ;;
+      r4 <- (if 0 <? c_applied c then commit_apply_internal r3 (c_applied c) true else Ok r3) ;;
+      r5 <- become_follower r4 (r_term r4) INVALID_ID ;;
+      _ <- last_term (r_log r5) ;;      (* evaluated for the "newRaft" log line *)
+      Ok (inr r5)
+  end.
